@@ -18,6 +18,7 @@ pub mod c12;
 pub mod c13;
 pub mod c14;
 pub mod c15;
+pub mod c16;
 
 pub struct Property {
     pub id: &'static str,
@@ -41,5 +42,6 @@ pub fn registry() -> Vec<Property> {
         Property { id: "C13", run: c13::run, subs: c13::subs },
         Property { id: "C14", run: c14::run, subs: c14::subs },
         Property { id: "C15", run: c15::run, subs: c15::subs },
+        Property { id: "C16", run: c16::run, subs: c16::subs },
     ]
 }
